@@ -22,7 +22,7 @@ pub fn def() -> PropDef {
     PropDef {
         info: PropInfo {
             id: "C20",
-            rule: "corpus lines generated from the strategies of the other checks: A = assembly texts (C13 programs and C14 token soup), V = near-valid byte strings (C06), D = well-formed instruction streams (C15) and the near-valid byte strings of C06 cut to whole slots (a panic is an answer like any other), X = structured programs + inputs (C01/C03, helper-free), dense straight-line programs, and call-graph / helper-call programs (C07/C08) with registered helpers and a stack-usage calculator on each of the four VM kinds, and helper-call programs for which the no_std build's caller-supplied JIT memory is placed near the helper and on either side of the +-2^31 distances from it; the JIT only on runs the reference model classifies as defined, terminating and in bounds. Each line is evaluated in two builds of the crate: the default one (in this process, executions fork-isolated) and the no_std one (binary harness-nostd, JIT running from caller-supplied mmap'ed executable memory). Oracle: the two transcripts are equal line by line - assembler Ok(bytes)/Err (messages are documented to differ, only the kind is compared), verifier Ok/Err, disassembler entries field by field, interpreter Ok(value)+packet bytes / Err, JIT Ok(value)+packet bytes / compile error. Non-trivial = line whose default-build result is Ok with at least 2 instructions, or Err; distinct by hash of the line.",
+            rule: "corpus lines generated from the strategies of the other checks: A = assembly texts (C13 programs and C14 token soup), V = near-valid byte strings (C06), D = well-formed instruction streams (C15) and the near-valid byte strings of C06 cut to whole slots (a panic is an answer like any other), X = structured programs + inputs (C01/C03, helper-free), dense straight-line programs, and call-graph / helper-call programs (C07/C08) with registered helpers and a stack-usage calculator on each of the four VM kinds, helper-call programs that are compiled and run, then - after every helper id was re-registered with another function - compiled and run again on the same VM object (R lines), and helper-call programs for which the no_std build's caller-supplied JIT memory is placed near the helper and on either side of the +-2^31 distances from it; the JIT only on runs the reference model classifies as defined, terminating and in bounds. Each line is evaluated in two builds of the crate: the default one (in this process, executions fork-isolated) and the no_std one (binary harness-nostd, JIT running from caller-supplied mmap'ed executable memory). Oracle: the two transcripts are equal line by line - assembler Ok(bytes)/Err (messages are documented to differ, only the kind is compared), verifier Ok/Err, disassembler entries field by field, interpreter Ok(value)+packet bytes / Err, JIT Ok(value)+packet bytes / compile error. Non-trivial = line whose default-build result is Ok with at least 2 instructions, or Err; distinct by hash of the line.",
             assumptions: &["the no_std build is linked into an ordinary std binary (only the crate's own feature set differs)", "Cranelift and the std-only helpers do not exist in the no_std build and are outside this property"],
         },
         run,
@@ -134,6 +134,49 @@ pub fn std_eval(runner: &mut Runner, line: &str) -> String {
                 Ok(v) => v.iter().map(|h| format!("{:x},{},{},{},{},{},{:x}", h.opc, h.name, h.desc.replace(' ', "_"), h.dst, h.src, h.off, h.imm)).collect::<Vec<_>>().join(";"),
             }
         }
+        "R" => {
+            // compile, run, re-register every helper id with the next pool function, compile again,
+            // run again - on one VM object
+            let x_form = format!("X{}", &line[1..]);
+            let Some((case, _)) = parse_x(&x_form) else { return "?".into() };
+            let r = super::fork_call(|| {
+                let prog: &'static [u8] = Box::leak(case.prog.clone().into_boxed_slice());
+                let pkt: &'static mut [u8] = Box::leak(case.pkt.clone().into_boxed_slice());
+                let mb: &'static mut [u8] = Box::leak(case.mbuff.clone().into_boxed_slice());
+                let paddr = pkt.as_ptr() as u64;
+                if let VmKind::Mbuff { data_off, end_off } = case.vm {
+                    if data_off + 8 <= mb.len() {
+                        mb[data_off..data_off + 8].copy_from_slice(&paddr.to_le_bytes());
+                    }
+                    if end_off + 8 <= mb.len() {
+                        mb[end_off..end_off + 8].copy_from_slice(&(paddr + pkt.len() as u64).to_le_bytes());
+                    }
+                }
+                let Ok(mut vm) = crate::vmx::AnyVm::new(case.vm, Some(prog)) else { return (2, 0) };
+                let mut vals = [0u64; 2];
+                for round in 0..2u8 {
+                    for (id, p) in &case.helpers {
+                        if vm.register_helper(*id, pool_fn((*p + round) % 8)).is_err() {
+                            return (3, 0);
+                        }
+                    }
+                    if vm.jit_compile().is_err() {
+                        return (4, round as u64);
+                    }
+                    let (p2, m2): (&'static mut [u8], &'static mut [u8]) = unsafe { (std::slice::from_raw_parts_mut(pkt.as_mut_ptr(), pkt.len()), std::slice::from_raw_parts_mut(mb.as_mut_ptr(), mb.len())) };
+                    match vm.exec(Engine::Jit, p2, m2) {
+                        Ok(v) => vals[round as usize] = v,
+                        Err(_) => return (5, round as u64),
+                    }
+                }
+                (1, vals[0].wrapping_mul(0x9e37_79b9_7f4a_7c15) ^ vals[1])
+            });
+            match r {
+                Ok((1, v)) => format!("r:ok,{v:x}"),
+                Ok((code, at)) => format!("r:err{code},{at}"),
+                Err(sig) => format!("r:signal{sig}"),
+            }
+        }
         "X" => {
             let Some((case, with_jit)) = parse_x(line) else { return "?".into() };
             let engines: &[Engine] = if with_jit { &[Engine::Interp, Engine::Jit] } else { &[Engine::Interp] };
@@ -187,7 +230,7 @@ fn compare(ctx: &Ctx, lines: &[String], std_out: &[String], no_out: &[String]) -
             st.eval();
             let kind = &line[..1];
             st.class(&format!("line:{kind}"));
-            let ok = a.starts_with("ok") || a.starts_with("i:ok") || (kind == "D" && a != "panic");
+            let ok = a.starts_with("ok") || a.starts_with("i:ok") || a.starts_with("r:ok") || (kind == "D" && a != "panic");
             st.class(&format!("{kind}:{}", if ok { "ok" } else { "err" }));
             if !ok || line.len() > 40 {
                 st.nontrivial(fnv_str(line));
@@ -317,6 +360,22 @@ fn run(ctx: &Ctx) {
         }
         drop(st);
         lines.push(x_line(&case, with_jit));
+    }
+    // second compilation on the same VM object after every helper id was re-registered with
+    // another function (both builds must then run the new functions)
+    for i in 0..ctx.share(600 * scale) {
+        let mut case = super::c08::lower(&sample(&hg, &mut tr));
+        if case.prog.len() > 8 * 3000 || case.helpers.is_empty() {
+            continue;
+        }
+        vary_vm(&mut case, i);
+        let m = model_run(&case, 0x1000, Quirks::default(), 200_000);
+        if !matches!(m.out, MOut::Ret(_)) || m.trace.helper_calls == 0 {
+            continue;
+        }
+        ctx.stats().class("R:compile-run-rebind-compile-run");
+        let x = x_line(&case, true);
+        lines.push(format!("R{}", &x[1..]));
     }
     // where the caller-supplied JIT memory of the no_std build lies relative to the helpers: near
     // them, and on either side of the 2^31 distances at which a rel32 call stops reaching - with
